@@ -788,7 +788,8 @@ fn run_lockstep_impl(cfg: &ScenCfg, out: &mut RunOut, rtu: bool) {
     let panics: Vec<String> = kernel::with(|w| w.panics.clone());
     if let Some(p) = panics.first() {
         let d = format!("the client task panicked: {}", p);
-        for prop in ["C10", "C12", "C13"] {
+        // (C04: no reply - nothing the peer sends - may end in a panic)
+        for prop in ["C10", "C12", "C13", "C04"] {
             out.violate(prop, "client_task_panicked", d.clone());
         }
     }
